@@ -50,6 +50,10 @@ def ref_digits(n, base, places):
     """integer -> digit string in `base` (or NUM)."""
     if not (-WIN[base] <= n < WIN[base]):
         return NUM
+    if places is None:
+        places = 0              # a blank argument counts as 0 (C08)
+    if places is not OMIT:
+        places = int(places)    # a fractional 'places' is truncated
     if places is not OMIT and not (1 <= places <= 10):
         return NUM
     if n < 0:
@@ -113,6 +117,10 @@ def places_class(p):
         return 'omit'
     if isinstance(p, bool):
         return 'bool'
+    if p is None:
+        return 'blank'
+    if isinstance(p, float) and not p.is_integer():
+        return 'fraction-' + ('bad' if not 1 <= int(p) <= 10 else 'ok')
     return 'bad' if not 1 <= p <= 10 else ('p%d' % p)
 
 
@@ -189,7 +197,8 @@ class Runner:
         for fname, arg, places, spelling in q:
             a = subject.lit(arg)
             t = f'={fname}({a}' + (
-                '' if places is OMIT else ',' + subject.lit(places)) + ')'
+                '' if places is OMIT else ',' + (
+                    'Z99' if places is None else subject.lit(places))) + ')'
             texts.append(t)
         outs = subject.eval_batch(texts)
         for (fname, arg, places, spelling), got in zip(q, outs):
@@ -225,7 +234,8 @@ class Runner:
                      monitor='roundtrip-identity')
 
 
-PLACES_ALL = [OMIT, -1, 0, 1, 2, 3, 4, 5, 6, 7, 8, 9, 10, 11]
+PLACES_ALL = [OMIT, -1, 0, 1, 2, 3, 4, 5, 6, 7, 8, 9, 10, 11,
+              None, 3.5, 10.9, 0.5, 4.0, 11.2]
 
 
 def run(ctx):
@@ -240,7 +250,7 @@ def run(ctx):
             continue
         for p in PLACES_ALL:
             R.library('DEC2BIN', v, p)
-            if p in (OMIT, 1, 5, 10, 0, 11) or thorough:
+            if p in (OMIT, 1, 5, 10, 0, 11, None, 3.5) or thorough:
                 R.formula('DEC2BIN', v, p)
         s = ref_digits(v, 2, OMIT)[1]
         for fn in ('BIN2DEC', 'BIN2OCT', 'BIN2HEX'):
